@@ -74,6 +74,24 @@ theorem objects_append (kind : Kind) (xs ys : List (SNode M P)) :
     sceneObjects kind (xs ++ ys) = sceneObjects kind xs ++ sceneObjects kind ys := by
   simp [objects_eq_paths_exact, pathsList_append]
 
+/-- nothing is invented and nothing is skipped: `(A, p)` is yielded iff some root reaches an
+instance `p` of the requested kind along node matrices `ms` (through any nesting and any
+`instance_node`s, `Reach` is a relation, not a traversal) and `A` is the product along `ms` -/
+theorem mem_objects_iff (kind : Kind) (roots : List (SNode M P)) (A : M) (p : P) :
+    (A, p) ∈ sceneObjects kind roots ↔
+      ∃ r ∈ roots, ∃ ms, Reach kind r ms p ∧ A = pathProd ms := by
+  rw [objects_eq_paths_exact]
+  constructor
+  · intro h
+    obtain ⟨⟨ms, q⟩, hmem, heq⟩ := List.mem_map.mp h
+    simp only [Prod.mk.injEq] at heq
+    obtain ⟨rfl, rfl⟩ := heq
+    obtain ⟨r, hr, hreach⟩ := reach_of_mem_pathsList kind roots ms q hmem
+    exact ⟨r, hr, ms, hreach, rfl⟩
+  · rintro ⟨r, hr, ms, hreach, rfl⟩
+    exact List.mem_map.mpr ⟨(ms, p),
+      mem_pathsList_of_mem kind roots r _ hr (mem_paths_of_reach kind r ms p hreach), rfl⟩
+
 /-- only instances of the requested kind are yielded, and every one of them is -/
 theorem kind_filter (kind k : Kind) (p : P) (acc : Option M) :
     objects kind acc (.inst k p : SNode M P) =
@@ -238,6 +256,9 @@ private def roots : List (SNode (Mat4 Int) Nat) :=
 
 example : (sceneObjects .geometry roots).map (·.2) = [7, 7, 8, 7, 8, 6] := by decide
 example : countInstList .geometry roots = 6 ∧ countInstList .light roots = 3 := by decide
+example : Reach .light (roots[0]'(by decide)) [T 1 2 3, T 0 1 0, T 0 0 5, S] 9 :=
+  .node (List.mem_cons_of_mem _ (List.mem_cons_self ..)) (.node (List.mem_cons_self ..) (.ref
+    (.node (List.mem_cons_self ..) (.ref (.node (List.mem_cons_of_mem _ (List.mem_cons_self ..)) (.inst 9))))))
 example : sceneObjects .light roots =
     [(T 1 2 3 * S, 9), ((T 1 2 3 * T 0 1 0) * T 0 0 5 * S, 9), (T 0 0 5 * S, 9)] := by decide
 example : (sceneObjects .geometry roots).map (·.1) =
